@@ -122,7 +122,9 @@ def case_strategy(draw):
     case["row_group"] = draw(st.sampled_from([1, 3, 7, max(1, n // 2), n])) if source == "parquet" else None
     case["a"] = draw(variant(n))
     case["b"] = draw(variant(n))
-    case["real_pool"] = draw(st.integers(0, 24)) == 0 and case["a"]["workers"] in (2, 3)
+    # real multiprocessing cross-check; not with patch_num: the isolated child is forked from a
+    # process that may have run treecorr's OpenMP threads, which libgomp does not survive
+    case["real_pool"] = draw(st.integers(0, 24)) == 0 and case["a"]["workers"] in (2, 3) and case["mode"] != "num"
     return case
 
 
